@@ -202,7 +202,7 @@ def gen_scenario(root, profile=None):
     kind = r.choice(p["kinds"])
     scen["kind"] = kind
     mode = r.choice(["min", "max"])
-    max_t = r.choice([3, 4, 5, 6, 8, 9, 9, 12, 16, 27])
+    max_t = r.choice(p.get("max_t_choices") or [3, 4, 5, 6, 8, 9, 9, 12, 16, 27])
     if kind in ("fifo_random", "fifo_grid", "fifo_bo", "rea"):
         max_t = r.choice([1, 1, 2, 3, 4])
     n_workers = r.choice([1, 2, 2, 3, 3, 4, 5, 6])
